@@ -92,6 +92,14 @@ func (m *PositionMapper) LineUTF16Len(line int) int {
 	return UTF16Len(m.lines[line])
 }
 
+// LineEndsWithCR reports whether the line ends with the carriage return of a CRLF line end.
+func (m *PositionMapper) LineEndsWithCR(line int) bool {
+	if line < 0 || line >= len(m.lines)-1 {
+		return false
+	}
+	return strings.HasSuffix(m.lines[line], "\r")
+}
+
 func (m *PositionMapper) LineRuneLen(line int) int {
 	if line < 0 || line >= len(m.lines) {
 		return 0
